@@ -19,12 +19,13 @@ int main(int argc, char** argv) {
   Lsm L;
   add_simple_ops(L.ops);
   const size_t nsimple = L.ops.size();
-  add_module_ops(L.ops, {4, 16});
+  add_module_ops(L.ops, {4, 16, 1024});
   add_table_ops(L.ops);
-  lsm_arena_page_align();
+  lsm_arena_page_align();   // nothing is ever write-protected in this check: it judges results, not writes (that is C12)
   Ctx ctx(args);
   const bool th = args.thorough();
   L.init_shared();
+  L.enforce_imm = false;
   L.report = [&](LsmKind k, const std::string& id, const std::string& msg) {
     if (ctx.args.replaying() && ctx.args.replay_id != id) return;
     if (k == LSM_HIST || k == LSM_CRASH) ctx.violation(id, msg);   // I-imm / I-warm findings belong to C12
